@@ -115,7 +115,7 @@ def evaluate(case: dict[str, Any]) -> dict[str, Any]:
         complaints += errs
         out: dict[str, Any] = {
             "G": canon(options.snapshot()) if not case.get("module_fields") else {},
-            "targets": [[t.path, t.module] for t in targets],
+            "targets": [[canon(t.path), t.module] for t in targets],  # -p/-m give absolute paths under the scratch cwd
             "M": {},
         }
         for m in case.get("modules") or []:
